@@ -60,3 +60,127 @@ package runtime
 //@ ensures [C06:parse] !(ret(G,0,0) == "" && old(DefaultMime) == "") ==> calls(PM) == 1 && arg(PM,0,0) == (ret(G,0,0) == "" ? old(DefaultMime) : ret(G,0,0))
 //@ ensures [C06:malformed] calls(PM) == 1 && ret(PM,0,2) != nil ==> result0 == "" && result1 == "" && calls(PE) == 1 && result2 == boxof(ret(PE,0,0)) && arg(PE,0,0) == "Content-Type"
 //@ ensures [C06:ok] calls(PM) == 1 && ret(PM,0,2) == nil ==> result0 == ret(PM,0,0) && result2 == nil && result1 == (in("charset", ret(PM,0,1)) ? ret(PM,0,1)["charset"] : "")
+
+// ---------------------------------------------------------------- text.go, bytestream.go (C15)
+
+// TextConsumer: the whole stream is buffered; a read error is returned; empty input is a
+// no-op; a TextUnmarshaler gets exactly the buffered bytes; a *string gets them as a string;
+// anything else is an error, never a panic.
+//@ func TextConsumer$1
+//@ watch RF = call (*bytes.Buffer).ReadFrom
+//@ watch BB = call (*bytes.Buffer).Bytes
+//@ watch UT = invoke (encoding.TextUnmarshaler).UnmarshalText
+//@ watch SS = call (reflect.Value).SetString
+//@ ensures [C15:nilreader] reader == nil ==> result != nil && calls(RF) == 0
+//@ ensures [C15:read] reader != nil ==> calls(RF) == 1 && arg(RF,0,1) == reader
+//@ ensures [C15:readerr] calls(RF) == 1 && ret(RF,0,1) != nil ==> result == ret(RF,0,1) && calls(UT) == 0 && calls(SS) == 0
+//@ ensures [C15:empty] calls(BB) == 1 && len(ret(BB,0,0)) == 0 ==> result == nil && calls(UT) == 0 && calls(SS) == 0
+//@ ensures [C15:unmarshal] calls(BB) == 1 && len(ret(BB,0,0)) > 0 && implements(data, "encoding.TextUnmarshaler") ==> calls(UT) == 1 && recv(UT,0) == data && arg(UT,0,0) == ret(BB,0,0) && calls(SS) == 0 && (result == nil <==> ret(UT,0,0) == nil)
+//@ ensures [C15:store] calls(SS) <= 1 && (calls(SS) == 1 ==> result == nil && calls(UT) == 0)
+//@ ensures [C15:unsupported] calls(BB) == 1 && len(ret(BB,0,0)) > 0 && calls(UT) == 0 && calls(SS) == 0 ==> result != nil
+
+// TextProducer: TextMarshaler, error, Stringer, then (via reflect) structs/slices as JSON and strings.
+//@ func TextProducer$1
+//@ watch MT = invoke (encoding.TextMarshaler).MarshalText
+//@ watch ER = invoke (error).Error
+//@ watch ST = invoke (fmt.Stringer).String
+//@ watch WJ = call github.com/go-openapi/swag.WriteJSON
+//@ watch WW = invoke (io.Writer).Write
+//@ ensures [C15:nilwriter] writer == nil ==> result != nil && calls(WW) == 0
+//@ ensures [C15:nildata] writer != nil && data == nil ==> result != nil && calls(WW) == 0
+//@ ensures [C15:marshaler] writer != nil && implements(data, "encoding.TextMarshaler") ==> calls(MT) == 1 && recv(MT,0) == data && (ret(MT,0,1) != nil ==> result != nil && calls(WW) == 0) && (ret(MT,0,1) == nil ==> calls(WW) == 1 && recv(WW,0) == writer && arg(WW,0,0) == ret(MT,0,0) && result == ret(WW,0,1))
+//@ ensures [C15:once] calls(WW) <= 1 && (calls(WW) == 1 ==> recv(WW,0) == writer && result == ret(WW,0,1))
+//@ ensures [C15:json] calls(WJ) == 1 && ret(WJ,0,1) != nil ==> result == ret(WJ,0,1) && calls(WW) == 0
+//@ ensures [C15:jsonbytes] calls(WJ) == 1 && ret(WJ,0,1) == nil ==> calls(WW) == 1 && arg(WW,0,0) == ret(WJ,0,0)
+
+// the deferred closer of the byte-stream codecs: runs the selected closer exactly once
+//@ func ByteStreamConsumer$1$1
+//@ watch K = dyn free:closer
+//@ requires closer != nil
+//@ ensures calls(K) == 1
+
+//@ func ByteStreamProducer$1$1
+//@ watch K = dyn free:closer
+//@ requires closer != nil
+//@ ensures calls(K) == 1
+
+// ByteStreamConsumer: dispatch order ReaderFrom, Writer, then a buffered copy into
+// BinaryUnmarshaler / *interface{} / *[]byte / *string; read errors are returned; the
+// stream is closed exactly when the option is set and it is a Closer.
+//@ func ByteStreamConsumer$1
+//@ watch BM = closure (io.Closer).Close$bound
+//@ watch DC = closure ByteStreamConsumer$1$1
+//@ watch DF = call ByteStreamConsumer$1$1
+//@ watch RM = invoke (io.ReaderFrom).ReadFrom
+//@ watch CP = call io.Copy
+//@ watch BR = call (*bytes.Buffer).ReadFrom
+//@ watch BB = call (*bytes.Buffer).Bytes
+//@ watch UB = invoke (encoding.BinaryUnmarshaler).UnmarshalBinary
+//@ watch SB = call (reflect.Value).SetBytes
+//@ watch SS = call (reflect.Value).SetString
+//@ ensures [C15:nilreader] reader == nil ==> result != nil && calls(DF) == 0 && calls(RM) == 0 && calls(CP) == 0 && calls(BR) == 0
+//@ ensures [C15:nildata] reader != nil && data == nil ==> result != nil && calls(DF) == 0 && calls(RM) == 0 && calls(CP) == 0 && calls(BR) == 0
+//@ ensures [C15:closeopt] reader != nil && data != nil ==> (calls(BM) == 1 <==> vals.Close && implements(reader, "io.Closer")) && (calls(BM) == 1 ==> arg(BM,0,0) == reader)
+//@ ensures [C15:closer] reader != nil && data != nil ==> calls(DC) == 1 && calls(DF) == 1 && captured(DC,0,"closer") == (calls(BM) == 1 ? ret(BM,0,0) : defaultCloser)
+//@ ensures [C15:readerfrom] reader != nil && data != nil && implements(data, "io.ReaderFrom") ==> calls(RM) == 1 && recv(RM,0) == data && arg(RM,0,0) == reader && result == ret(RM,0,1) && calls(CP) == 0 && calls(BR) == 0 && time(RM,0) < time(DF,0)
+//@ ensures [C15:writer] reader != nil && data != nil && !implements(data, "io.ReaderFrom") && implements(data, "io.Writer") ==> calls(CP) == 1 && arg(CP,0,0) == data && arg(CP,0,1) == reader && result == ret(CP,0,1) && calls(BR) == 0 && time(CP,0) < time(DF,0)
+//@ ensures [C15:buffered] reader != nil && data != nil && !implements(data, "io.ReaderFrom") && !implements(data, "io.Writer") ==> calls(BR) == 1 && arg(BR,0,1) == reader && calls(RM) == 0 && calls(CP) == 0 && time(BR,0) < time(DF,0)
+//@ ensures [C15:readerr] calls(BR) == 1 && ret(BR,0,1) != nil ==> result == ret(BR,0,1) && calls(UB) == 0 && calls(SB) == 0 && calls(SS) == 0
+//@ ensures [C15:unmarshal] calls(BR) == 1 && ret(BR,0,1) == nil && implements(data, "encoding.BinaryUnmarshaler") ==> calls(UB) == 1 && recv(UB,0) == data && arg(UB,0,0) == ret(BB,0,0) && result == ret(UB,0,0)
+//@ ensures [C15:store] calls(SB) + calls(SS) <= 1 && (calls(SB) == 1 ==> arg(SB,0,1) == ret(BB,0,0) && result == nil) && (calls(SS) == 1 ==> result == nil)
+
+//@ func ByteStreamProducer$1
+//@ watch BM = closure (io.Closer).Close$bound
+//@ watch DC = closure ByteStreamProducer$1$1
+//@ watch DF = call ByteStreamProducer$1$1
+//@ watch RC = invoke (io.Closer).Close
+//@ watch WT = invoke (io.WriterTo).WriteTo
+//@ watch CP = call io.Copy
+//@ watch MB = invoke (encoding.BinaryMarshaler).MarshalBinary
+//@ watch WJ = call github.com/go-openapi/swag.WriteJSON
+//@ watch WW = invoke (io.Writer).Write
+//@ ensures [C15:nilwriter] writer == nil ==> result != nil && calls(DF) == 0 && calls(WW) == 0 && calls(WT) == 0 && calls(CP) == 0
+//@ ensures [C15:nildata] writer != nil && data == nil ==> result != nil && calls(DF) == 0 && calls(WW) == 0 && calls(WT) == 0 && calls(CP) == 0
+//@ ensures [C15:closeopt] writer != nil && data != nil ==> (calls(BM) == 1 <==> vals.Close && implements(writer, "io.Closer")) && (calls(BM) == 1 ==> arg(BM,0,0) == writer)
+//@ ensures [C15:closer] writer != nil && data != nil ==> calls(DC) == 1 && calls(DF) == 1 && captured(DC,0,"closer") == (calls(BM) == 1 ? ret(BM,0,0) : defaultCloser)
+//@ ensures [C15:payloadclosed] writer != nil && data != nil ==> (calls(RC) == 1 <==> implements(data, "io.ReadCloser")) && (calls(RC) == 1 ==> recv(RC,0) == data)
+//@ ensures [C15:writerto] writer != nil && data != nil && implements(data, "io.WriterTo") ==> calls(WT) == 1 && recv(WT,0) == data && arg(WT,0,0) == writer && result == ret(WT,0,1) && calls(CP) == 0 && calls(WW) == 0
+//@ ensures [C15:reader] writer != nil && data != nil && !implements(data, "io.WriterTo") && implements(data, "io.Reader") ==> calls(CP) == 1 && arg(CP,0,0) == writer && arg(CP,0,1) == data && result == ret(CP,0,1) && calls(WW) == 0
+//@ ensures [C15:marshaler] writer != nil && data != nil && !implements(data, "io.WriterTo") && !implements(data, "io.Reader") && implements(data, "encoding.BinaryMarshaler") ==> calls(MB) == 1 && recv(MB,0) == data && (ret(MB,0,1) != nil ==> result == ret(MB,0,1) && calls(WW) == 0) && (ret(MB,0,1) == nil ==> calls(WW) == 1 && arg(WW,0,0) == ret(MB,0,0) && result == ret(WW,0,1))
+//@ ensures [C15:once] calls(WW) <= 1 && (calls(WW) == 1 ==> recv(WW,0) == writer && result == ret(WW,0,1))
+//@ ensures [C15:json] calls(WJ) == 1 && ret(WJ,0,1) != nil ==> result == ret(WJ,0,1) && calls(WW) == 0
+
+// ---------------------------------------------------------------- json.go, xml.go (C15): which library codec runs, with which options
+
+//@ func JSONConsumer$1
+//@ watch ND = call encoding/json.NewDecoder
+//@ watch UN = call (*encoding/json.Decoder).UseNumber
+//@ watch DE = call (*encoding/json.Decoder).Decode
+//@ assume after ND ret(ND,0,0) != nil
+//@ ensures [C15:json] calls(ND) == 1 && arg(ND,0,0) == reader && calls(UN) == 1 && arg(UN,0,0) == ret(ND,0,0) && calls(DE) == 1 && arg(DE,0,0) == ret(ND,0,0) && arg(DE,0,1) == data && time(UN,0) < time(DE,0) && result == ret(DE,0,0)
+
+//@ func JSONProducer$1
+//@ watch NE = call encoding/json.NewEncoder
+//@ watch EH = call (*encoding/json.Encoder).SetEscapeHTML
+//@ watch EN = call (*encoding/json.Encoder).Encode
+//@ assume after NE ret(NE,0,0) != nil
+//@ ensures [C15:json] calls(NE) == 1 && arg(NE,0,0) == writer && calls(EH) == 1 && arg(EH,0,0) == ret(NE,0,0) && !arg(EH,0,1) && calls(EN) == 1 && arg(EN,0,0) == ret(NE,0,0) && arg(EN,0,1) == data && time(EH,0) < time(EN,0) && result == ret(EN,0,0)
+
+//@ func XMLConsumer$1
+//@ watch ND = call encoding/xml.NewDecoder
+//@ watch DE = call (*encoding/xml.Decoder).Decode
+//@ assume after ND ret(ND,0,0) != nil
+//@ ensures [C15:xml] calls(ND) == 1 && arg(ND,0,0) == reader && calls(DE) == 1 && arg(DE,0,0) == ret(ND,0,0) && arg(DE,0,1) == data && result == ret(DE,0,0)
+
+//@ func XMLProducer$1
+//@ watch NE = call encoding/xml.NewEncoder
+//@ watch EN = call (*encoding/xml.Encoder).Encode
+//@ assume after NE ret(NE,0,0) != nil
+//@ ensures [C15:xml] calls(NE) == 1 && arg(NE,0,0) == writer && calls(EN) == 1 && arg(EN,0,0) == ret(NE,0,0) && arg(EN,0,1) == data && result == ret(EN,0,0)
+
+//@ func init$1
+//@ ensures [C15:discard] result == nil
+//@ assigns \nothing
+//@ func init$2
+//@ ensures [C15:discard] result == nil
+//@ assigns \nothing
